@@ -8,12 +8,13 @@ position keeps every reference to it (callers, element segments, exports, start)
 -/
 namespace Walrus.Sem
 
-/-- `replace_imported_func k body`: the function at identifier `k` keeps its identifier and its
-    signature and becomes a local function with the given body; nothing else changes.
-    `none` when `k` is not an imported function (the edit returns an error). -/
+/-- `replace_imported_func k body`: the function named by index `k` keeps its identifier (uid), its
+    signature and its parameters and becomes a local function with the given body; nothing else
+    changes.  `none` when `k` is not an imported function (the edit returns an error). -/
 def Env.replaceImported (E : Env) (k : Nat) (body : SL) : Option Env :=
-  match E.funcs[k]? with
-  | some fi => if fi.imp.isSome then some { E with funcs := E.funcs.set k ⟨fi.sig, none, [], body⟩ } else none
+  match (E.ftab[k]?).bind fun u => (E.ufuncs[u]?).map fun fi => (u, fi) with
+  | some (u, fi) =>
+    if fi.imp.isSome then some { E with ufuncs := E.ufuncs.set u ⟨fi.sig, none, fi.lt.take fi.sig.1.length, body⟩ } else none
   | none => none
 
 /-- the import entries with the `j`-th *function* import removed -/
@@ -35,11 +36,12 @@ def firstExportOf (m : ModuleM) (f : Nat) : Option Nat :=
     identifier and the first export of `f` is retargeted to it; `f` itself and every other
     reference to it are untouched.  `none` when `f` is not exported or not a local function. -/
 def replaceExported (m : ModuleM) (E : Env) (f : Nat) (body : SL) : Option (ModuleM × Env) :=
-  match E.funcs[f]?, firstExportOf m f with
+  match (E.ftab[f]?).bind fun u => E.ufuncs[u]?, firstExportOf m f with
   | some fi, some ex =>
     if fi.imp.isSome then none else
-    some ({ m with exports := m.exports.set ex ((m.exports[ex]?.map (·.1)).getD "", "f", E.funcs.length) },
-          { E with funcs := E.funcs ++ [⟨fi.sig, none, [], body⟩] })
+    some ({ m with exports := m.exports.set ex ((m.exports[ex]?.map (·.1)).getD "", "f", E.ftab.length) },
+          { E with ftab := E.ftab ++ [E.ufuncs.length],
+                   ufuncs := E.ufuncs ++ [⟨fi.sig, none, fi.lt.take fi.sig.1.length, body⟩] })
   | _, _ => none
 
 end Walrus.Sem
